@@ -339,3 +339,48 @@ Proof.
   - simpl. rewrite feed_concat. exact E.
   - eauto.
 Qed.
+
+(* ---------------------------------------------------------------- reply direction: server writes, client reads until final *)
+Lemma read_until_final_spec (final : bytes -> bool) : forall pre fuel s sock last rest,
+  wf s -> Forall nonempty sock ->
+  Forall (fun m => nonempty m /\ sized m /\ final m = false) pre ->
+  nonempty last -> sized last -> final last = true ->
+  buffer s ++ concat sock = wire (pre ++ [last]) ++ rest ->
+  (length pre < fuel)%nat ->
+  read_until_final final fuel s sock = Some (pre ++ [last]).
+Proof.
+  induction pre as [|m ms IH]; intros fuel s sock last rest W NE OK NL SL FL E F.
+  - destruct fuel; [lia|]. cbn [app] in E. rewrite wire_cons in E. cbn [wire map concat] in E. rewrite <- app_assoc in E.
+    destruct (read_bytes_complete sock s last _ W SL NE E) as (s' & sock' & R & _).
+    cbn [read_until_final app]. rewrite R, (is_empty_false last NL), FL. reflexivity.
+  - destruct fuel; [lia|].
+    inversion OK as [|? ? (Hne & Hm & Hf) Hms]; subst.
+    cbn [app] in E. rewrite wire_cons, <- app_assoc in E.
+    destruct (read_bytes_complete sock s m _ W Hm NE E) as (s' & sock' & R & MS & E' & NE').
+    cbn [read_until_final app]. rewrite R, (is_empty_false m Hne), Hf.
+    rewrite (IH fuel s' sock' last rest); auto.
+    + unfold wf. rewrite MS. exact I.
+    + cbn [length] in F. lia.
+Qed.
+
+Lemma reply_stream_delivered_l (final : bytes -> bool) : forall pre last chunks rest,
+  Forall (fun m => nonempty m /\ sized m /\ final m = false) pre ->
+  nonempty last -> sized last -> final last = true ->
+  concat chunks = wire (pre ++ [last]) ++ rest ->
+  read_until_final final (S (length pre)) ipc_init (feed chunks) = Some (pre ++ [last]).
+Proof.
+  intros pre last chunks rest OK NL SL FL E.
+  apply (read_until_final_spec final pre _ ipc_init (feed chunks) last rest wf_init (feed_nonempty _) OK NL SL FL).
+  - simpl. rewrite feed_concat. exact E.
+  - lia.
+Qed.
+
+Lemma request_delivered_l : forall req chunks rest, sized req ->
+  concat chunks = encode_frame req ++ rest ->
+  read_n 1 ipc_init (feed chunks) = Some [req].
+Proof.
+  intros req chunks rest S E.
+  apply (framing_correct_counted_l [req] chunks rest).
+  - constructor; [exact S | constructor].
+  - cbn [wire map concat]. rewrite app_nil_r. exact E.
+Qed.
